@@ -7,7 +7,7 @@ import (
 )
 
 func init() {
-	probeNames["C12"] = []string{"queue_full_error", "flush_after_space_freed", "read_on_full_file", "ack_on_full_file", "cycle_completed", "drift_checked", "event_gt_half_file", "pq_reopen", "close_flush_failed"}
+	probeNames["C12"] = []string{"queue_full_error", "flush_after_space_freed", "read_on_full_file", "ack_on_full_file", "cycle_completed", "drift_checked", "event_gt_half_file", "pq_reopen"}
 	register(&PropDef{
 		ID: "C12", Level: "exploration", QuickSec: 50, ThoroSec: 900,
 		Rule: "each run = fill/drain cycles on a small bounded simulated file (64-160 KiB, page size 1024-4096, write buffer min..16 pages): the producer writes events (sizes from 1 byte to more than half the file) until Write/Next/Flush report an error, the consumer reads and ACKs a drawn amount, repeated 3-40 cycles (up to 200 thorough), with reopen between some cycles. Oracles: FIFO/byte-exact delivery over the whole run (C05 oracle; a Write that returned (0,err) appended nothing); reading and ACK succeed on the full file; after ACKs freed space a later Flush succeeds within 2 calls and the buffered events come out in order; space bound: data pages in use <= pages spanned by un-ACKed+buffered events + constant (root page + pages of the most recent event + 2), and no drift: with everything ACKed the number of pages in use after the first cycle equals the number after the last cycle. Non-trivial = run that hit the full-file error at least twice and recovered; distinct = op list + config + schedule hash.",
@@ -211,6 +211,7 @@ func c12Body(e *Env) {
 				p.Apply(Op{K: "flush"})
 			}
 		}
+		checkSpace("end of run, everything delivered has been ACKed")
 	}
 	e.Res.Sig = sigOfOps(p.Ops, uint64(ps), uint64(cfg.MaxSize), uint64(cfg.WriteBuf))
 	e.Res.Nontrivial = fulls >= 2
